@@ -1374,6 +1374,64 @@ pub fn run_ack_stats(focus: &'static str, seed: u64, index: u64) -> CaseOut {
     CaseOut { findings, counts, signature: fnv_step(0xAC5, index % 6), nontrivial, sample: case }
 }
 
+// ------------------------------------------------------------------------------------------------ the last handle of the cache is dropped with writes still queued
+
+/// Writes are queued behind a held worker, the caller keeps their acknowledgements and drops its (last) handle of the cache without
+/// calling shutdown(). Every write that was queued must still be executed and acknowledged with a real outcome, in order.
+pub fn run_drop_backlog(focus: &'static str, seed: u64, index: u64) -> CaseOut {
+    let mut rng = rt::rng_for(seed, index, 0xD209);
+    let n = rng.range(3, 40);
+    let sutcfg = SutCfg { counters: 100, capacity: 16, max_weight: 100_000, shards: 2, cmd_buf: 64, pool: 1, buf: 2, tick: Duration::from_millis(1),
+        weight_mode: WeightMode::Custom, hash_mode: HashMode::Default, start_ns: rt::START_NS };
+    let case = J::obj().with("engine", J::s("conc")).with("scenario", J::s("drop-backlog")).with("focus", J::s(focus)).with("seed", J::Int(seed as i128)).with("index", J::Int(index as i128)).with("queued_writes", J::Int(n as i128));
+    let mut counts = Counts::default();
+    let mut findings = Vec::new();
+    rt::clear_abort();
+    let r = recorder();
+    r.keep.store(false, Ordering::SeqCst);
+    r.track_acked.store(true, Ordering::SeqCst);
+    let _ = r.take_events();
+    r.clear_acked();
+    sched().release_all();
+    sched().quiet();
+    let sut = Sut::new(sutcfg);
+    let marks = sut.marks;
+    let Sut { cache, .. } = sut;
+    sched().arm(Site::WorkerDequeued, 0);
+    let mut acks: Vec<(Arc<CommandAcknowledgement>, u64, WriteOp)> = Vec::new();
+    let first = issue(&cache, &WriteOp::Delete { key: 77 });
+    let mut entered = false;
+    if sched().wait_holding(Site::WorkerDequeued, Duration::from_secs(5)) {
+        entered = true;
+        for i in 0..n {
+            let key = 1 + i % 5;
+            let op = match rng.below(3) { 0 => WriteOp::Delete { key }, 1 => WriteOp::PutW { key, value: token(key, 1, i + 1), weight: 10 }, _ => WriteOp::Upsert { key, value: Some(token(key, 1, i + 1)), weight: Some(12), ttl: None, remove_ttl: false } };
+            if let Issued::Ack(ack, uid) = issue(&cache, &op) { if uid != 0 { acks.push((ack, uid, op)); } }
+        }
+    }
+    // the last handle goes away while the queue is full of work
+    let dropped = match Arc::try_unwrap(cache) { Ok(cache) => { drop(cache); true } Err(still_shared) => { std::mem::forget(still_shared); false } };
+    sched().release(Site::WorkerDequeued);
+    if let Issued::Ack(ack, uid) = first { let _ = rt::await_ack(ack.handle(), uid, &marks); }
+    if entered && dropped {
+        counts.inc("caches_dropped_with_writes_still_queued");
+        for (ack, uid, op) in &acks {
+            match rt::await_ack(ack.handle(), *uid, &marks) {
+                Waited::Ready(CommandStatus::Pending) | Waited::ReadyPending => fail(&mut findings, &["C12", "C11"], "C12/ready-pending".into(), format!("{} resolved to Pending", op.shape()), case.clone()),
+                Waited::Ready(CommandStatus::ShuttingDown) => { fail(&mut findings, &["C11", "C13"], "C11/queued-write-refused-after-the-cache-was-dropped".into(), format!("{} was queued before the handle was dropped (shutdown() was never called) and was answered ShuttingDown", op.shape()), case.clone()); break; }
+                Waited::Ready(_) => { counts.inc("queued_writes_acknowledged_after_the_drop"); }
+                Waited::Inconclusive(reason) => { findings.push(Finding { props: vec![focus], signature: "inconclusive/drop-backlog".into(), detail: reason, witness: J::Null, inconclusive: true }); break; }
+                other => { fail(&mut findings, &["C11", "C12"], "C11/queued-write-never-executed/cache-dropped".into(), format!("{} was queued, then the last handle of the cache was dropped: its acknowledgement never resolves ({})", op.shape(), waited_name(&other)), case.clone()); break; }
+            }
+        }
+    } else { counts.inc("window_not_entered"); }
+    let nontrivial = counts.get("queued_writes_acknowledged_after_the_drop") > 0;
+    // the background threads of the dropped cache wind down by themselves
+    let _ = rt::wait_until("the worker of the dropped cache to exit", || { let w = rt::role_index(Role::Worker); recorder().exited[w].load(Ordering::SeqCst) > marks.exited[w] });
+    counts.inc("cases");
+    CaseOut { findings, counts, signature: fnv_step(0xD209, n), nontrivial, sample: case }
+}
+
 // ------------------------------------------------------------------------------------------------ long quiet periods and long stalls (real time; thorough tier)
 
 /// Two things only real time can show. Variant 0: the worker is held for 12 s while the one-slot queue is full and a caller is blocked in
